@@ -6,7 +6,12 @@
    indistinguishable from rune_eof = -1, so the tokenizer emits TEOF with no error pending and the rest of the
    document (including the reader failure) is never looked at (reader_failure_is_error_as_stated_false below).
    The theorems are therefore proved under the additional hypothesis  ~ In rune_eof (r_rest r)  (implied by
-   "all bytes are in 0..255", see reader_failure_is_error_bytes). *)
+   "all bytes are in 0..255", see reader_failure_is_error_bytes).
+
+   The theorems hold for EVERY failure mode of the reader (r_fail_mode): a sticky failure (no data, fails forever), a
+   one-off failure without data, and a one-off failure that delivers its bytes together with the error (after
+   which the reader may go on to a clean io.EOF).  The invariant is "the reader still fails early OR the error
+   flag is already set": a failing read sets s_err in all three modes, and s_err is sticky. *)
 From Coq Require Import ZArith List Bool Lia Arith.
 Import ListNotations.
 From Cedar Require Import Base.Utf8 Lang.Value Impl.Scanner Impl.Tokenizer Proofs.ScannerProofs.
@@ -58,7 +63,10 @@ Proof.
       * symmetry; apply app_nil_r.
       * symmetry; apply firstn_skipn.
   - destruct f.
-    + intros H; inversion H; subst. reflexivity.
+    + destruct (r_fail_mode r); intros H; inversion H; subst; cbn [r_rest].
+      * reflexivity.
+      * reflexivity.
+      * symmetry; apply firstn_skipn.
     + destruct (r_rest r) as [|x rest] eqn:Hr.
       * intros H; inversion H; subst. reflexivity.
       * match goal with |- context [if ?c then _ else _] => destruct c end; intros H; inversion H; subst; cbn [r_rest].
@@ -66,16 +74,16 @@ Proof.
         -- symmetry; apply firstn_skipn.
 Qed.
 
-(* under fails_early a read never reports io.EOF: it either fails (reader unchanged) or delivers data without
-   an error, and the reader still fails early afterwards *)
+(* under fails_early a read never reports io.EOF: it either fails (in whichever mode: with or without data, the
+   reader unchanged or advanced) or delivers data without an error, and the reader still fails early afterwards *)
 Lemma read_fails_early : forall r cap data err r',
     fails_early r -> read r cap = (data, err, r') ->
-    (err = Some RFail /\ data = [] /\ r' = r) \/ (err = None /\ fails_early r').
+    err = Some RFail \/ (err = None /\ fails_early r').
 Proof.
   intros r cap data err r' [a [Ha Hlt]]. unfold read.
   destruct (r_sched r) as [|[n f] sch] eqn:Hs; cbn [avail] in Ha; [discriminate|].
   destruct f.
-  - intros H; inversion H; subst. left. auto.
+  - destruct (r_fail_mode r); intros H; inversion H; subst; left; reflexivity.
   - destruct (avail sch) as [a'|] eqn:Hav; cbn [option_map] in Ha; [|discriminate].
     inversion Ha; subst a. clear Ha.
     destruct (r_rest r) as [|x rest] eqn:Hr; [cbn [length] in Hlt; lia|].
@@ -119,17 +127,22 @@ Proof.
     destruct ((ch =? rune_error)%Z && Nat.eqb w 1); exact Hne.
 Qed.
 
-(* the invariant of the failure argument: the reader still fails early, and neither the buffer nor the
-   undelivered bytes contain the end-of-input marker *)
-Definition Pf (s : scanner) : Prop := fails_early (s_rd s) /\ clean (s_buf s) /\ clean (r_rest (s_rd s)).
+(* the invariant of the failure argument: the reader still fails early or a failure has already been recorded
+   (a non-sticky failing step is consumed, so "fails early" alone is not preserved), and neither the buffer nor
+   the undelivered bytes contain the end-of-input marker *)
+Definition Pf (s : scanner) : Prop :=
+  (fails_early (s_rd s) \/ s_err s = true) /\ clean (s_buf s) /\ clean (r_rest (s_rd s)).
 
 Lemma Pf_byte_at : forall s, Pf s -> byte_at s <> rune_eof.
 Proof. intros s [_ [Hb _]]. unfold byte_at. apply clean_nth. exact Hb. Qed.
 
-Lemma refill_step_Pf : forall b s s' out,
-    Pf s -> refill_step b s = (s', out) -> Pf s' /\ (out = ReturnEOF -> s_err s' = true).
+(* cleanliness is preserved by every refill step, for every reader: the delivered bytes (also those delivered
+   together with an error) come from the undelivered ones *)
+Lemma refill_step_clean : forall b s s' out,
+    clean (s_buf s) -> clean (r_rest (s_rd s)) -> refill_step b s = (s', out) ->
+    clean (s_buf s') /\ clean (r_rest (s_rd s')).
 Proof.
-  intros b s s' out [HJ [Hb Hr]].
+  intros b s s' out Hb Hr.
   destruct (read (s_rd s) (b - length (window s))) as [[data err] rd'] eqn:Hrd.
   rewrite (refill_step_unfold _ _ _ _ _ Hrd).
   pose proof (read_rest _ _ _ _ _ Hrd) as Hrest.
@@ -137,13 +150,41 @@ Proof.
   { unfold clean in *. rewrite Hrest in Hr. apply Forall_app in Hr. destruct Hr as [Hd Hr'].
     split; [|exact Hr']. apply Forall_app. split; [|exact Hd]. apply clean_skipn. exact Hb. }
   destruct Hcl as [Hcl1 Hcl2].
-  destruct (read_fails_early _ _ _ _ _ HJ Hrd) as [[He [Hd Hr']]|[He HJ']]; subst err.
-  - subst data rd'. cbn zeta.
-    destruct (window s ++ []) as [|y ys] eqn:Hw; intros H; inversion H; subst s' out.
-    + split; [|reflexivity]. unfold Pf. fields. repeat split; [exact HJ|constructor|exact Hr].
-    + split; [|discriminate]. unfold Pf. fields. rewrite Hw. repeat split; [exact HJ|exact Hcl1|exact Hr].
-  - intros H; inversion H; subst s' out. split; [|discriminate].
-    unfold Pf. fields. repeat split; [exact HJ'|exact Hcl1|exact Hcl2].
+  destruct err as [[|]|]; cbn zeta.
+  - destruct (window s ++ data) as [|y ys] eqn:Hw; intros H; inversion H; subst s' out; fields.
+    + split; [constructor|exact Hcl2].
+    + rewrite Hw. split; [exact Hcl1|exact Hcl2].
+  - destruct (window s ++ data) as [|y ys] eqn:Hw; intros H; inversion H; subst s' out; fields.
+    + split; [constructor|exact Hcl2].
+    + rewrite Hw. split; [exact Hcl1|exact Hcl2].
+  - intros H; inversion H; subst s' out; fields. split; [exact Hcl1|exact Hcl2].
+Qed.
+
+(* a refill step keeps "fails early or error recorded", and returns end-of-input only with the error recorded *)
+Lemma refill_step_fe : forall b s s' out,
+    fails_early (s_rd s) \/ s_err s = true -> refill_step b s = (s', out) ->
+    (fails_early (s_rd s') \/ s_err s' = true) /\ (out = ReturnEOF -> s_err s' = true).
+Proof.
+  intros b s s' out [HJ|He] Hst.
+  - revert Hst.
+    destruct (read (s_rd s) (b - length (window s))) as [[data err] rd'] eqn:Hrd.
+    rewrite (refill_step_unfold _ _ _ _ _ Hrd).
+    destruct (read_fails_early _ _ _ _ _ HJ Hrd) as [He|[He HJ']]; subst err.
+    + cbn zeta. destruct (window s ++ data) as [|y ys]; intros H; inversion H; subst s' out; fields.
+      * split; [right; reflexivity|reflexivity].
+      * split; [right; reflexivity|discriminate].
+    + intros H; inversion H; subst s' out; fields. split; [left; exact HJ'|discriminate].
+  - destruct (refill_step_gen _ _ _ _ Hst) as [He' _]. specialize (He' He).
+    split; [right; exact He'|intros _; exact He'].
+Qed.
+
+Lemma refill_step_Pf : forall b s s' out,
+    Pf s -> refill_step b s = (s', out) -> Pf s' /\ (out = ReturnEOF -> s_err s' = true).
+Proof.
+  intros b s s' out [HJ [Hb Hr]] Hst.
+  destruct (refill_step_clean _ _ _ _ Hb Hr Hst) as [Hb' Hr'].
+  destruct (refill_step_fe _ _ _ _ HJ Hst) as [HJ' He].
+  split; [|exact He]. unfold Pf. auto.
 Qed.
 
 Lemma refill_Pf : forall b fuel s s1 eof,
@@ -160,6 +201,12 @@ Proof.
   - intros H; inversion H; subst. split; [exact HP|discriminate].
 Qed.
 
+Lemma ascii_step_fe : forall s x,
+    fails_early (s_rd s) \/ s_err s = true -> fails_early (s_rd (ascii_step s x)) \/ s_err (ascii_step s x) = true.
+Proof.
+  intros s x [HJ|He]; [left; rewrite ascii_step_rd; exact HJ|right; apply ascii_step_err; exact He].
+Qed.
+
 (* next(): the invariant is preserved, and end-of-input is only ever returned with the error flag set *)
 Lemma next_Pf : forall fuel b s s' ch,
     Pf s -> next fuel b s = Some (s', ch) -> Pf s' /\ (ch = rune_eof -> s_err s' = true).
@@ -167,19 +214,29 @@ Proof.
   intros fuel b s s' ch HP. rewrite next_unfold.
   destruct (byte_at s <? 128)%Z.
   - intros H; inversion H; subst. split.
-    + destruct HP as [HJ [Hb Hr]]. unfold Pf. rewrite ascii_step_rd, ascii_step_buf. auto.
+    + destruct HP as [HJ [Hb Hr]]. unfold Pf. rewrite ascii_step_buf.
+      split; [apply ascii_step_fe; exact HJ|]. rewrite ascii_step_rd. auto.
     + intros He. exfalso. exact (Pf_byte_at _ HP He).
   - destruct (refill fuel b s) as [[s1 eof]|] eqn:Hrf; [|discriminate].
     destruct (refill_Pf _ _ _ _ _ HP Hrf) as [HP1 He].
     destruct eof.
     + intros H; inversion H; subst. split; [exact HP1|]. intros _. apply He. reflexivity.
-    + pose proof (finish_rd s1) as Hfr. pose proof (finish_buf s1) as Hfb.
+    + pose proof (finish_rd s1) as Hfr. pose proof (finish_buf s1) as Hfb. pose proof (finish_err s1) as Hfe.
       pose proof (finish_ne s1 (Pf_byte_at _ HP1)) as Hfn.
       destruct (finish s1) as [sf chf]. cbn [fst snd] in *.
       intros H; inversion H; subst. split.
-      * destruct HP1 as [HJ [Hb Hr]]. unfold Pf. rewrite Hfr, Hfb. auto.
+      * destruct HP1 as [HJ [Hb Hr]]. unfold Pf. rewrite Hfr, Hfb.
+        split; [|auto]. destruct HJ as [HJ|HJ]; [left; exact HJ|right; apply Hfe; exact HJ].
       * intros Hc. contradiction.
 Qed.
+
+(* the token bookkeeping operations keep the invariant *)
+Lemma Pf_token_start : forall s, Pf s -> Pf (token_start s).
+Proof. intros s HP. exact HP. Qed.
+Lemma Pf_token_stop : forall s, Pf s -> Pf (token_stop s).
+Proof. intros s HP. exact HP. Qed.
+Lemma Pf_set_err : forall s, Pf s -> Pf (set_err s).
+Proof. intros s [_ [Hb Hr]]. unfold Pf. fields. split; [right; reflexivity|auto]. Qed.
 
 (* ------------------------------------------------------------------------------------------------ *)
 (* 3. the tokenizer, generically: "the lookahead is honest"                                          *)
@@ -407,14 +464,14 @@ Theorem reader_failure_is_error : forall fuel b r ts,
 Proof.
   intros fuel b r ts _ HJ Hcl. unfold tokenize.
   assert (HP0 : Pf (init r)).
-  { unfold Pf. cbn [init s_rd s_buf]. repeat split; [exact HJ|constructor|].
+  { unfold Pf. cbn [init s_rd s_buf]. split; [left; exact HJ|]. split; [constructor|].
     unfold clean. apply Forall_forall. intros x Hin Hx. subst x. exact (Hcl Hin). }
   destruct (next fuel b (init r)) as [[s ch]|] eqn:Hn; [|discriminate].
   apply (tokenize_loop_never_ok scanner (next fuel b) token_start token_stop set_err token_position token_text s_err Pf).
   - intros s0 s' c HP H. exact (next_Pf _ _ _ _ _ HP H).
-  - intros s0 HP. split; [exact HP|reflexivity].
-  - intros s0 HP. split; [exact HP|reflexivity].
-  - intros s0 HP. split; [exact HP|reflexivity].
+  - intros s0 HP. split; [exact (Pf_token_start _ HP)|reflexivity].
+  - intros s0 HP. split; [exact (Pf_token_stop _ HP)|reflexivity].
+  - intros s0 HP. split; [exact (Pf_set_err _ HP)|reflexivity].
   - exact (next_Pf _ _ _ _ _ HP0 Hn).
 Qed.
 
@@ -427,8 +484,9 @@ Proof.
 Qed.
 
 (* The statement without a hypothesis on the bytes does not hold: a "byte" -1 is taken for end-of-input. *)
-Definition cex_reader : reader :=
-  {| r_rest := [65; -1; 66]%Z; r_sched := [(2, false); (0, true)]; r_eof_with_data := false |}.
+Definition cex_reader_mode (m : fmode) : reader :=
+  {| r_rest := [65; -1; 66]%Z; r_sched := [(2, false); (0, true)]; r_eof_with_data := false; r_fail_mode := m |}.
+Definition cex_reader : reader := cex_reader_mode FSticky.
 
 Lemma reader_failure_is_error_as_stated_false :
   ~ (forall fuel b r ts, (4 <= b)%nat -> fails_early r -> tokenize fuel b r <> Some (Some ts)).
@@ -437,6 +495,15 @@ Proof.
   refine (H 10 4 cex_reader _ (le_n 4) _ _).
   - exists 2. split; [reflexivity|]. cbn. lia.
   - vm_compute. reflexivity.
+Qed.
+
+(* ... and in every failure mode *)
+Lemma reader_failure_is_error_as_stated_false_modes : forall m,
+    fails_early (cex_reader_mode m) /\ exists ts, tokenize 10 4 (cex_reader_mode m) = Some (Some ts).
+Proof.
+  intros m. split.
+  - exists 2. split; [reflexivity|]. cbn. lia.
+  - destruct m; eexists; vm_compute; reflexivity.
 Qed.
 
 (* ------------------------------------------------------------------------------------------------ *)
@@ -802,6 +869,42 @@ Proof.
   vm_compute in H. discriminate H.
 Qed.
 
+(* ------------------------------------------------------------------------------------------------ *)
+(* 6. non-vacuity for the data-with-error mode: the two-token document "a b" ; the failing step delivers the  *)
+(*    last byte ("b") TOGETHER with the error and is followed by a clean io.EOF.  The tokenizer reports the     *)
+(*    error; the same reader without the failing flag gives the two tokens (and the EOF token).               *)
+(* ------------------------------------------------------------------------------------------------ *)
+Definition ex_fd_reader (fail : bool) : reader :=
+  {| r_rest := [97; 32; 98]%Z; r_sched := [(2, false); (1, fail)]; r_eof_with_data := false; r_fail_mode := FOnceData |}.
+
+Example ex_fail_once_data :
+  fails_early (ex_fd_reader true) /\
+  (* the failing read really delivers the last byte with the error, and the next read is a clean EOF *)
+  (let r1 := snd (read (ex_fd_reader true) 4) in
+   read r1 4 = ([98]%Z, Some RFail, snd (read r1 4)) /\ read (snd (read r1 4)) 4 = ([], Some REOF, snd (read r1 4))) /\
+  tokenize 10 4 (ex_fd_reader true) = Some None /\
+  tokenize 10 1024 (ex_fd_reader true) = Some None /\
+  (exists ts, tokenize 10 4 (ex_fd_reader false) = Some (Some ts) /\
+              map t_type ts = [TIdent; TIdent; TEOF] /\ map t_text ts = [[97]; [98]; []]%Z /\ map t_off ts = [0; 2; 3]%Z).
+Proof.
+  split; [exists 2; split; [reflexivity|cbn; lia]|].
+  split; [vm_compute; split; reflexivity|].
+  split; [vm_compute; reflexivity|].
+  split; [vm_compute; reflexivity|].
+  eexists. split; [vm_compute; reflexivity|]. repeat split; reflexivity.
+Qed.
+
+(* the general theorem applies to it *)
+Example ex_fail_once_data_thm : forall b fuel, (4 <= b)%nat -> (4 <= fuel)%nat -> tokenize fuel b (ex_fd_reader true) = Some None.
+Proof.
+  intros b fuel Hb Hf. apply reader_failure_is_error_total_bytes.
+  - exact Hb.
+  - exists 2. split; [reflexivity|cbn; lia].
+  - repeat constructor; lia.
+  - cbn. lia.
+  - cbn. lia.
+Qed.
+
 Print Assumptions reader_failure_is_error.
 Print Assumptions reader_failure_is_error_bytes.
 Print Assumptions reader_failure_is_error_as_stated_false.
@@ -809,3 +912,6 @@ Print Assumptions tokenize_total_gen.
 Print Assumptions reader_failure_is_error_total.
 Print Assumptions reader_failure_is_error_total_bytes.
 Print Assumptions reader_failure_is_error_total_as_stated_false.
+Print Assumptions reader_failure_is_error_as_stated_false_modes.
+Print Assumptions ex_fail_once_data.
+Print Assumptions ex_fail_once_data_thm.
